@@ -1,6 +1,6 @@
 (* C19 — Merge bases and ancestor specs resolve as the commit graph dictates.  Property theorems only. *)
 From Coq Require Import List Arith Bool NArith.
-From Dolt Require Import Graph.CommitDag Graph.CommitDagFacts C18.Model C18.Proofs C19.Model C19.Spec C19.Corr C19.Proofs.
+From Dolt Require Import Graph.CommitDag Graph.CommitDagFacts C18.Model C18.Corr C18.Proofs C19.Model C19.HeapModel C19.Spec C19.Corr C19.Proofs C19.HeapProofs C19.OracleProofs.
 Import ListNotations.
 
 (* In all statements: [rank] is the byte order of commit addresses (injective:
@@ -125,3 +125,53 @@ Theorem C19_can_ff_true_iff :
     (can_ff rank (store_of rank h) c new = FF_ok \/ can_ff rank (store_of rank h) c new = FF_uptodate) <-> ancs h c new.
 Proof. exact can_ff_true_iff. Qed.
 Print Assumptions C19_can_ff_true_iff.
+
+(* container/heap, as used by CommitByHeightHeap (binary heap in a slice, up/down
+   sift): for any Less that is a total preorder, heap.Push keeps the heap order
+   and adds the element; heap.Pop returns the root, which is least for Less,
+   and keeps the heap order on the rest. *)
+Theorem C19_heap_push :
+  forall lessb : nat -> nat -> bool,
+    (forall x y, lessb x y = true -> hle lessb x y) ->
+    (forall x y z, hle lessb x y -> hle lessb y z -> hle lessb x z) ->
+  forall x a, hp lessb (length a) a ->
+    hp lessb (S (length a)) (hpush lessb x a) /\ length (hpush lessb x a) = S (length a) /\
+    (forall y, In y (hpush lessb x a) <-> y = x \/ In y a).
+Proof. exact hpush_correct. Qed.
+Print Assumptions C19_heap_push.
+
+Theorem C19_heap_pop :
+  forall lessb : nat -> nat -> bool,
+    (forall x y, lessb x y = true -> hle lessb x y) ->
+    (forall x y z, hle lessb x y -> hle lessb y z -> hle lessb x z) ->
+  forall a, a <> [] -> hp lessb (length a) a ->
+    exists rest, hpop lessb a = Some (nth 0 a 0, rest) /\
+                 hp lessb (length rest) rest /\ S (length rest) = length a /\
+                 (forall y, In y a <-> y = nth 0 a 0 \/ In y rest).
+Proof. exact hpop_correct. Qed.
+Print Assumptions C19_heap_pop.
+
+(* MaxHeight() = r[0].Height() is the greatest height in the queue: what heap.Pop
+   returns is always a commit of maximal height *)
+Theorem C19_heap_root_is_max :
+  forall rank (s : store) a, hp (commit_less rank s) (length a) a ->
+    forall y, In y a -> hgt s y <= hgt s (nth 0 a 0).
+Proof. exact heap_root_is_max. Qed.
+Print Assumptions C19_heap_root_is_max.
+
+(* the walk over container/heap queues = the walk over multisets *)
+Theorem C19_heap_refines_multiset :
+  forall rank, (forall a b, rank a = rank b -> a = b) ->
+  forall (s : store) c1 c2, mb_parents_heap rank s c1 c2 = mb_parents rank s c1 c2.
+Proof. exact heap_refines_multiset. Qed.
+Print Assumptions C19_heap_refines_multiset.
+
+(* The executable statement of the property accepts the model's observation. *)
+Theorem C19_oracle_accepts_model :
+  forall i : input,
+    wf_histb (in_hist i) = true ->
+    rank_okb (length (in_hist i)) (map N.to_nat (snd (fst (fst i)))) = true ->
+    pairs_okb i = true -> specs_split_okb i = true ->
+    oracle i (model_obs i) = true.
+Proof. exact oracle_accepts_model. Qed.
+Print Assumptions C19_oracle_accepts_model.
